@@ -9,7 +9,7 @@ OPS = {"arr_acc": [None], "arr_rej": [None], "arr_unbound_symbolic": [None], "du
        "pytree_flatten": [None, "exc", "base"], "pytree_flatten_structured": [None, "exc", "base"], "pytree_leaf": [None, "exc", "base"], "pytree_leaf_structured": [None, "exc", "base"],
        "pytree_annotation_error": [None], "pytree_reject_structured": [None], "pytree_question_leaf": [None], "pytree_symbolic_fault": [None, "exc", "base"], "symbolic_fault": [None, "exc", "base"],
        "call_body": [None, "exc", "base"], "call_body_old": [None, "exc", "base"], "call_illtyped": [None], "call_pytree_arg_fault": [None, "exc", "base"], "call_checker_fault": [None, "exc", "base"],
-       "context_block_fault": [None, "exc", "base"], "old_style_generator": [None], "old_style_generator_twin": [None], "reentered_context_object": [None, "exc", "base"], "generator_suspended": [None, "exc", "base"], "generator_handed_over": [None], "concurrent_flatten": [None], "decorate_other": [None], "pickle": [None], "hook": [None]}
+       "context_block_fault": [None, "exc", "base"], "old_style_generator": [None], "old_style_generator_twin": [None], "reentered_context_object": [None, "exc", "base"], "decorate_inside_call": [None, "exc", "base"], "generator_suspended": [None, "exc", "base"], "generator_handed_over": [None], "concurrent_flatten": [None], "decorate_other": [None], "pickle": [None], "hook": [None]}
 EXPECT = {"path": None, "flat": False, "depth": 0, "bindings": "", "P1_wrong_dtype_rejected": False, "P2_question_outside_raises": "AnnotationError", "P3_structured_pytree": True,
           "P4_alias_rejects_wrong_dtype": False, "P5_alias_rejects_wrong_rank": False, "P6_stateless_toplevel": [True, True], "P7_early_function_rejects_wrong_dtype": "X:TypeCheckError"}
 
@@ -21,7 +21,7 @@ def main():
     # exhaustive single-fault catalogue: every op x every fault x checker x inside/outside a context
     for op, faults in OPS.items():
         for f in faults:
-            for chk in (("typeguard", "beartype") if op.startswith("call") or op in ("old_style_generator", "old_style_generator_twin", "decorate_other", "generator_suspended", "generator_handed_over") else ("typeguard",)):
+            for chk in (("typeguard", "beartype") if op.startswith("call") or op in ("old_style_generator", "old_style_generator_twin", "decorate_inside_call", "decorate_other", "generator_suspended", "generator_handed_over") else ("typeguard",)):
                 for ctx in (False, True):
                     hists.append([{"op": op, "fault": f, "checker": chk, "ctx": ctx}])
     ncat = len(hists)
@@ -45,6 +45,10 @@ def main():
     for i, (h, r) in enumerate(zip(hists, res)):
         for o, oc in zip(h, r["ops"]):
             R.count("op-outcome:" + oc.split(":")[0])
+        for o, oc in zip(h, r["ops"]):
+            if o["op"] == "decorate_inside_call" and not o["fault"] and oc != "ok:True":
+                R.violation("property", "decorating functions inside an active jaxtyped call changed what that call's own checks answer: %s (expected ok:True; the annotations' structure name and axes were unbound) after %s" % (
+                    oc, [x["op"] for x in h]), {"history": h, "outcomes": r["ops"]}, key={"kind": "decorate-inside-call", "checker": o.get("checker")})
         bad = {k: v for k, v in r["probes"].items() if v != EXPECT[k]}
         if bad:
             names = [("%s(%s)" % (o["op"], o["fault"]) if o["fault"] else o["op"]) + ("@ctx" if o["ctx"] else "") for o in h]
